@@ -111,8 +111,10 @@ def build_model(case):
     H = model.mats["Ham"]
     i0 = [tuple(int(x) for x in r) for r in model.iRvec].index((0, 0, 0))
     H[i0] = H[i0] - np.diag(np.diag(H[i0]))
-    raw = sum(float(np.linalg.norm(H[i], 2)) for i in range(len(H)))
-    H *= float(case["tau"]) / raw
+    hop = [i for i in range(len(H)) if i != i0]
+    tau = float(case["tau"])
+    H[i0] *= 0.25 * tau / float(np.linalg.norm(H[i0], 2))                       # on-site mixing: a quarter of the budget
+    H[hop] *= 0.75 * tau / sum(float(np.linalg.norm(H[i], 2)) for i in hop)     # dispersion: three quarters
     s = float(case["gap"]) + 2 * float(case["tau"])
     H[i0] += np.diag(np.arange(model.nw) * s)
     E = np.array([model.bands(k) for k in own_mesh(dim)])
@@ -122,11 +124,16 @@ def build_model(case):
     return model, float(E.min()), float(E.max()), gap, s
 
 
+D2_REFINE = 4      # the plain-sum f'' form bins the band energies on the Fermi grid: it gets a 4x finer grid (same end points)
+
+
 def calculators(case, Ef, smoother):
     from wannierberri.calculators import static
+    from wannierberri.smoother import FermiDiracSmoother
+    Ef_fine = np.linspace(Ef[0], Ef[-1], D2_REFINE * (len(Ef) - 1) + 1)
     kw = dict(Efermi=Ef, smoother=smoother, use_factor=bool(case["use_factor"]), tetra=True)
     it = dict(kwargs_formula={"external_terms": False})
-    kw_nt = dict(kw, tetra=False)
+    kw_nt = dict(kw, tetra=False, Efermi=Ef_fine, smoother=FermiDiracSmoother(Ef_fine, T_Kelvin=float(case["T"])))
     return dict(
         ohmic_sea=static.Ohmic_FermiSea(**kw), ohmic_surf=static.Ohmic_FermiSurf(**kw),
         berrydipole_sea=static.BerryDipole_FermiSea(**kw, **it), berrydipole_surf=static.BerryDipole_FermiSurf(**kw, **it),
@@ -158,9 +165,11 @@ def run_once(system, case, Ef, smoother, NKdiv, NKFFT, scratch, tag):
                  restart=False, file_Klist_path=os.path.join(scratch, "klist_" + tag), print_progress_step_time=1e9)
     data = {}
     for k, v in res.results.items():
-        if list(np.array(v.Energies[0])) != list(Ef):
+        step = D2_REFINE if k == "nldrude_d2" else 1
+        E = np.array(v.Energies[0])[::step]
+        if E.shape != Ef.shape or np.max(np.abs(E - Ef)) > 1e-9:
             raise Violation("fermi-grid", f"{k}: result is not given on the requested Fermi grid")
-        data[k] = np.array(v.dataSmooth, dtype=float)
+        data[k] = np.array(v.dataSmooth, dtype=float)[::step]
     return data
 
 
